@@ -12,7 +12,8 @@ Driver for C01 / C04 (one negotiation model).  Line (fields after the property i
 * `cfg`     `;`-joined features `ns.loc:nec:proh:negotiable:listReq:listErr:parseErr:mask:restart:negErr`
             (the last six fields are the scripted behaviour of the callbacks; an optional eleventh
             field `layer`: a restarting Negotiate returns a new connection layer), `-` = none
-* `script`  `;`-joined peer items: `H1`/`H0` header good/bad, `A<i,i,…>` features list with
+* `script`  `;`-joined peer items: `H1`/`H0` header good/bad, `Hx` a good header of the other
+            framing (`<open/>` on TCP, `<stream:stream>` on WebSocket), `A<i,i,…>` features list with
             items `ns.loc.req` or `J` (character data), `Ens.loc.iq.payload` another element,
             `X` stream error, `T` a token that is not a start element; `-` = empty
 * `picks`   `,`-joined names `ns.loc` of the `Negotiate` calls observed on the initiating side
@@ -72,6 +73,7 @@ def parseAdvItem (s : String) : Option AdvItem :=
 def parsePeer (s : String) : Option Peer :=
   if s == "H1" then some (.hdr true)
   else if s == "H0" then some (.hdr false)
+  else if s == "Hx" then some .hdrOther
   else if s == "X" then some .serr
   else if s == "T" then some .nonStart
   else if s.startsWith "A" then do
